@@ -219,6 +219,24 @@ def pipeline_case(ctx, rng, idx):
         rep.fail(sig + ':after:' + (labels[-1].split(':')[0] if labels else 'source'), case, detail)
 
 
+SCHEMA_PENDING = []
+
+
+def schema_corr(ctx, case, prefix_links, spec, dp_after, target_name):
+    """queue the comparison of the target's fields after the join with the model's `joinTargetFields`"""
+    with quiet():
+        before = Flow(*prefix_links).results(on_error=None)[1].descriptor
+    src_f = [canon.enc_field(f) for f in before['resources'][0]['schema']['fields']]
+    tgt_f = [canon.enc_field(f) for f in before['resources'][1]['schema']['fields']]
+    specs = []
+    for name, sp in spec.items():
+        sp = sp or {}
+        specs.append({'name': name, 'src': sp.get('name', name), 'agg': sp.get('aggregate', 'any')})
+    after = [r for r in dp_after.descriptor['resources'] if r['name'] == target_name][0]
+    real = {'fields': [canon.enc_field(f) for f in after['schema']['fields']]}
+    SCHEMA_PENDING.append((case, {'op': 'joinschema', 'source_fields': src_f, 'target_fields': tgt_f, 'specs': specs}, real))
+
+
 AGGS = ['sum', 'avg', 'median', 'max', 'min', 'first', 'last', 'count', 'any', 'set', 'array', 'counters']
 SRC_TYPES = {
     'integer': [3, 4, 10, 1, 2, 2, 7, 0, -5],
@@ -264,6 +282,8 @@ def join_matrix(ctx):
                 rep.case('join-matrix', case)
                 for sig, detail in check_result(res, dp):
                     rep.fail('%s:join-matrix:%s:%s' % (sig, agg, typ), case, detail)
+                if flavour != 'self':
+                    schema_corr(ctx, case, [copy.deepcopy(src), DF.set_type('val', type=typ), copy.deepcopy(tgt)], spec, dp, 'res_2')
 
 
 def computed_matrix(ctx):
@@ -339,6 +359,7 @@ def join_shapes(ctx):
                 rep.case('join-shape', case)
                 for sig, detail in check_result(res, dp):
                     rep.fail('%s:join-shape:%s' % (sig, label), case, detail)
+                schema_corr(ctx, case, [copy.deepcopy(src), copy.deepcopy(tgt)], spec, dp, 'res_2')
                 # the kept source leaves as it came
                 if not sd:
                     got = [f['name'] for f in dp.descriptor['resources'][0]['schema']['fields']]
@@ -370,6 +391,11 @@ def run(ctx):
     join_matrix(ctx)
     join_shapes(ctx)
     computed_matrix(ctx)
+    if ctx.model.available():
+        outs = ctx.model.run([op for _, op, _ in SCHEMA_PENDING])
+        for (case, _op, real), mo in zip(SCHEMA_PENDING, outs):
+            rep.corr('joinschema', case, real, mo)
+    del SCHEMA_PENDING[:]
     # the model side of the same steps
     P.run_cases(ctx, LAYER_A, None, ctx.n(400, 5000), salt='corr')
 
